@@ -672,6 +672,10 @@ func (c *FnCtx) stdModel(fr *frame, st *State, site ssa.Instruction, name string
 		}
 		c.mutexModel(fr, st, name, cc)
 		return c.noopCall(st, cc.Signature()), true
+	case strings.HasPrefix(name, "(*sync.Pool)."):
+		// sync.Pool: Put keeps a reference to its argument and changes nothing the caller can observe; Get returns
+		// an arbitrary value of the pool's element type
+		return c.noopCall(st, cc.Signature()), true
 	case name == "errors.New":
 		// a fresh, non-nil error value
 		r := c.noopCall(st, cc.Signature())
